@@ -160,6 +160,9 @@ type App struct {
 	Outboxes    map[string][]string
 	StoredInbox map[string]bool   // actors for which InboxForActor answers actor+"/inbox"
 	SharedInbox map[string]string // actors for which InboxForActor answers this inbox (several actors may share one)
+	// Endpoints: inbox / outbox IRIs that are not the actor's id plus "/inbox" or "/outbox" (routed by a
+	// query parameter, percent-escaped, ...): endpoint IRI -> {actor id, "inbox" | "outbox"}
+	Endpoints map[string][2]string
 	Remote      map[string][]byte // documents served by Transport.Dereference
 	NextID      int
 	ReqBase     int // number of requests served before this App value was cloned (keeps ids unique)
@@ -243,6 +246,12 @@ func (a *App) Clone() *App {
 	b.Inboxes = cloneLists(a.Inboxes)
 	b.Outboxes = cloneLists(a.Outboxes)
 	b.StoredInbox = cloneSet(a.StoredInbox)
+	if a.Endpoints != nil {
+		b.Endpoints = map[string][2]string{}
+		for k, v := range a.Endpoints {
+			b.Endpoints[k] = v
+		}
+	}
 	if a.SharedInbox != nil {
 		b.SharedInbox = map[string]string{}
 		for k, v := range a.SharedInbox {
